@@ -39,6 +39,11 @@ def cases_for(rng, q):
         cases.append(("case", ops))
     for how in ("refused", "badstatus", "closeearly", "garbage"):
         cases.append(("case", ["ws 1 %s once" % how, "census", "ws 2 %s again" % how, "census", "timer 3 ok", "close 1", "close 2", "close 3", "census"]))
+    # a descriptor number reused by an object with a read in flight, then the old owner is closed again
+    for kind in ("dial", "listen", "packet", "timer", "open"):
+        cases.append(("case", ["%s 1 ok" % kind, "close 1", "dial 2 ok", "aread 2", "close 1", "close 1", "dial 3 ok", "aread 3", "close 2", "close 2", "close 1",
+                               "close 3", "census"]))
+    cases.append(("case", ["dial 1 ok", "dial 2 ok", "aread 1", "aread 2", "close 1", "dial 3 ok", "aread 3", "close 1", "close 2", "close 3", "census"]))
     # random histories
     for _ in range(20 if q else 400):
         ops = []
@@ -52,6 +57,8 @@ def cases_for(rng, q):
                 if how == "ok":
                     live.append(nid)
                 nid += 1
+            elif rng.random() < 0.3 and live:
+                ops.append("aread %d" % rng.choice(live))
             else:
                 ops.append("close %d" % rng.choice(live + list(range(1, nid))))
         for i in range(1, nid):
